@@ -5,6 +5,56 @@ import json, subprocess
 ALL = ["C%02d" % i for i in range(1, 21)]
 
 CHECKS = {
+ "C01": dict(
+   text="Reference-model monitor: schemas generated in the core fragment (with per-schema construct switches so that most schemas use few construct families) x JSON documents (heuristic members, near misses, unrelated); validate_json_from_str's verdict is compared with the independent three-valued RFC 8610 evaluator R-eval (PEG array matcher, pair-to-member assignment with cuts for maps, least fixed point for recursion). Disagreements are shrunk on schema and document with a score that steers away from listed constructs, then looked up by direction + construct tags.",
+   note="R-eval (vh/src/reval.rs) is hand-transcribed from RFC 8610; cases it leaves open are counted as unspecified. Ten classes of pre-existing JSON-validator defects are listed in known_findings.json (class findings by construct tags); one defect repaired (uint accepted negatives).",
+   technique="runtime differential monitor against an executable reference model (R-eval) over generated schema/document pairs; shrink + tag-class attribution",
+   design_ref="DESIGN.md section 3 C01"),
+ "C02": dict(
+   text="As C01 for validate_cbor_from_slice with the CBOR-only constructs (bytes, tags, #n/#7.m, non-text keys, 64-bit boundary integers), plus a metamorphic monitor: every data item is validated in its canonical encoding and in 3 random encodings (indefinite lengths, widened heads, float width, chunked strings) that the harness's RFC 8949 model decodes to the same item; all verdicts must agree.",
+   note="R-eval + the RFC 8949 model of vh/src/dv.rs are the trusted base. Thirteen classes of pre-existing CBOR-validator defects are listed as class findings.",
+   technique="runtime differential monitor (R-eval) + metamorphic encoding-equivalence monitor",
+   design_ref="DESIGN.md section 3 C02"),
+ "C04": dict(
+   text="Pure differential monitor: the two validators observe each other on the same JSON-model value (JSON text vs canonical CBOR) for schemas over the shared feature set incl. generics, sockets, unwrap, group-to-choice, .and/.within/.default. R-eval is only recorded to say which side is wrong.",
+   note="Seventeen classes of pre-existing asymmetries are listed as class findings (they mirror the C01/C02 classes).",
+   technique="runtime differential monitor between two implementations (JSON validator vs CBOR validator)",
+   design_ref="DESIGN.md section 3 C04"),
+ "C08": dict(
+   text="Metamorphic monitor: a generated schema S and its refactoring rho(S) (11 meaning-preserving rewrites: extract/inline rules, generic abstraction, two instantiations of one generic group, /= increments, sockets, parentheses, renaming, unused rules, reordering, group extraction) must give the same verdict on every value, for both validators. R-eval guards against harness-side rewrites that change the meaning.",
+   note="Eight classes of pre-existing transparency defects (literal-only range bounds, table key aliases, controls through aliases, forwarded generic parameters ...) are listed as class findings. Seeded change C08-m1 (nested named group with several choices inside '&') is not reached by the random workload (see DESIGN.md).",
+   technique="runtime metamorphic monitor over schema refactorings",
+   design_ref="DESIGN.md section 3 C08"),
+ "C09": dict(
+   text="Identity monitor on observed verdicts: rewrites (swap alternatives, respell occurrences, splice a prelude name's Appendix D definition, a...b == a..(b-1)) and composites (A/B vs B/A vs A or B; .and/.within vs A and B; .ne vs .eq; inclusive vs exclusive range) for both validators.",
+   note="Eight classes of pre-existing defects are listed (comparison controls, .and/.within on rule names, occurrence spelling on map members, '#n' forms of prelude names ...).",
+   technique="runtime metamorphic / algebraic-identity monitor over pairs and triples of validator runs",
+   design_ref="DESIGN.md section 3 C09"),
+ "C10": dict(
+   text="Permutation monitor: every map inside a document is permuted (all permutations up to 4 entries) in JSON text and CBOR encoding; members of schema map groups with distinct literal keys are permuted; CBOR maps with a duplicated pair are compared with R-eval deciding duplicates by assignment (only false accepts are judged).",
+   note="Classes of pre-existing order dependence (tables next to literal members, same-domain table members, occurrence on literal members) are listed. Seeded change C10-m1 is not reached by the random workload (see DESIGN.md).",
+   technique="runtime metamorphic monitor (permutation invariance) + reference model for duplicate keys",
+   design_ref="DESIGN.md section 3 C10"),
+ "C13": dict(
+   text="Reference-reader monitor: CSV texts written from a table of classified cells are read by the harness's RFC 4180 reader and mapped per the CSV draft; validate_csv_from_str must succeed exactly when validate_json_from_str on the mapped document does, for 14 CSV-shaped schemas and all header flags. Texts with unspecified cells are counted only.",
+   note="The JSON validator is the verdict oracle on both sides, as the property states. The reader is self-checked against the writer on every case.",
+   technique="runtime differential monitor against a reference CSV reader + mapping",
+   design_ref="DESIGN.md section 3 C13"),
+ "C14": dict(
+   text="Invariant + determinism monitor on validation results: non-empty error lists, JSON error locations that resolve in the document, distinguishable error kinds for malformed schema / malformed document / non-conforming document, and identical (verdict, ordered error list) between sequential repetitions, after unrelated calls, and from 8 concurrently released threads (overlap of calls is measured and reported).",
+   note="Two known findings (malformed CBOR reported as CDDLParsing; relative JSON locations from nested validators). The crate has no shared mutable state of its own; TSan/Miri variants are described in DESIGN.md.",
+   technique="runtime invariant monitor + repetition/concurrency determinism monitor with measured overlap",
+   design_ref="DESIGN.md section 3 C14"),
+ "C16": dict(
+   text="Comment monitor with unique ids: recognition half (every AST comment is exactly one printed comment, unchanged, attached once; ';' inside literals never yields a comment) on randomly placed comments; formatting half on curated placements that must survive formatting exactly (template half), plus event classification on random placements.",
+   note="AST comments are collected from the Debug rendering so that no comment field can be missed. The formatter's comment emission outside the curated placements is one listed finding.",
+   technique="runtime monitor with unique-id instrumentation of the input (exactly-once / unchanged / no-absorption)",
+   design_ref="DESIGN.md section 3 C16"),
+ "C20": dict(
+   text="Pointer-identity monitor: the harness walks the public AST, records the true parent of every node kind that has a Parent impl (36 child/parent pairs) by address and compares with child.parent(&pv); wrong answers are classified (parent of an equal earlier/later child, unrelated, none).",
+   note="Two defects repaired by fix: commits (structural-equality de-duplication; generic arguments of ~name not walked). Value-copied nodes (Occur, Value) are not checked.",
+   technique="runtime invariant monitor over the returned index (address identity against an independent walk)",
+   design_ref="DESIGN.md section 3 C20"),
  "C03": dict(
    text="Mirror monitor: derivation trees generated over the whole grammar are printed with randomised legal layout and parsed; the AST skeleton must equal the derivation (rule order, names, sockets, kinds, assignment operators, generic parameters, nesting of choices/groups/occurrences/member keys/operators, literal kinds and values). Disagreements are reproduced under a canonical rendering, shrunk on the derivation tree and explained by labelled repairs before lookup in known_findings.json. This decides 'derivable => accepted and mirrored' on the generated texts; the converse direction (non-derivable => rejected) is only exercised through C05/C15's mutants and is not judged here.",
    note="The harness-side grammar knowledge is the printer + skeleton (vh/src/gs.rs, skel.rs), written from RFC 8610 App. B / RFC 9682; group-vs-type rule ambiguity avoided by construction. Known findings: group rule with a bare entry, parenthesised type at the head of a group entry, '#' followed by white space and a digit or '('. Two defects repaired by fix: commits (.cborseq, byte-string member keys).",
